@@ -124,6 +124,11 @@ func (c *fctx) expr(e ast.Expr) string {
 			}
 			return c.varName(v)
 		}
+		if fn, ok := c.info.Uses[t].(*types.Func); ok {
+			if ci := c.x.funcs[fn]; ci != nil {
+				return c.funcValue(ci)
+			}
+		}
 		bad("identifier %s at %s", t.Name, c.site(e.Pos()))
 	case *ast.SelectorExpr:
 		if sel, ok := c.info.Selections[t]; ok && sel.Kind() == types.FieldVal {
@@ -134,6 +139,11 @@ func (c *fctx) expr(e ast.Expr) string {
 		}
 		if v, ok := c.info.Uses[t.Sel].(*types.Var); ok {
 			return c.pkgVar(v, e.Pos())
+		}
+		if fn, ok := c.info.Uses[t.Sel].(*types.Func); ok {
+			if ci := c.x.funcs[fn]; ci != nil {
+				return c.funcValue(ci)
+			}
 		}
 		bad("selector %s at %s", t.Sel.Name, c.site(e.Pos()))
 	case *ast.IndexExpr:
